@@ -309,6 +309,28 @@ pub fn gen_history_mode(seed: u64, with_faults: bool, session: bool) -> History 
         };
         ops.push(Op::plain(req));
     }
+    if o.chance(1, 4) {
+        // a third directed family: results kept from earlier requests travel on as handles - re-wrapped into thunks,
+        // packed into arrays / objects, passed as arguments, manifested again after collections
+        let tail = vec![
+            Req::Eval { thunk: o.below(16) as u32, keep: true },
+            Req::Eval { thunk: o.below(16) as u32, keep: true },
+            Req::Gc,
+            Req::MakeArray { values: vec![0, 1, 0] },
+            Req::MakeObject { values: vec![2, 0] },
+            Req::ToThunk { value: 2 },
+            Req::ToThunk { value: 3 },
+            Req::Gc,
+            Req::Call { thunk: o.below(16) as u32, pos: vec![o.below(16) as u32], named: vec![], keep: true },
+            Req::Manifest { value: 3, multiline: true },
+            Req::Manifest { value: 0, multiline: false },
+            Req::Eval { thunk: 200, keep: false },
+        ];
+        let n = 4 + o.usize_below(tail.len() - 3);
+        for r in tail.into_iter().take(n) {
+            ops.push(Op::plain(r));
+        }
+    }
     if tla_family {
         ops.retain(|op| !matches!(op.req, Req::DropThunk(_)));
         let codes = [
